@@ -2,7 +2,7 @@
 SPECIFICATION Spec
 CONSTANTS
   Mode = "range"
-  Ops <- OpsRange
+  Ops <- OpsRangeQuick
   Contents <- ContentsTiny
   Tilings <- TilingsNone
   PredFns <- RPredsOne
